@@ -641,3 +641,34 @@ pub fn random_rich_grammar(rng: &mut Rng, name: &str) -> (Value, Option<String>)
 fn cx_rng(rng: &mut Rng) -> &mut Rng {
     rng
 }
+
+/// LR(1)-but-not-LALR(1) grammars with a k-way split: k context tokens, k single-token rules with
+/// the same body, k terminator tokens arranged as a (partial) Latin square — after `ctx_i 'c'` the
+/// k states share the item-set core {n_0 -> 'c' . , … , n_{k-1} -> 'c' .} and are pairwise
+/// incompatible (the same look-ahead reduces to different rules), so state merging must keep all
+/// of them apart.  `drop` removes some cells of the square so that some pairs become compatible.
+pub fn lalr_split_grammar(rng: &mut Rng, name: &str) -> Value {
+    let k = rng.range(2, 4);
+    let ctx = ["a", "b", "g", "h"];
+    let term = ["d", "e", "f", "i"];
+    let shift = rng.below(k);
+    let mut alts = Vec::new();
+    for i in 0..k {
+        for j in 0..k {
+            if rng.chance(1, 6) && !(i == j) {
+                continue; // partial square: some contexts do not allow every rule
+            }
+            let t = term[(i + j + shift) % k];
+            let mut ms = vec![s(ctx[i]), sym(&format!("n{j}")), s(t)];
+            if rng.chance(1, 4) {
+                ms.push(s("z"));
+            }
+            alts.push(seq(ms));
+        }
+    }
+    let mut rules: Vec<(String, Value)> = vec![("start".into(), if rng.chance(1, 2) { rep1(choice(alts)) } else { choice(alts) })];
+    for j in 0..k {
+        rules.push((format!("n{j}"), if rng.chance(1, 3) { seq(vec![s("c"), opt(s("c"))]) } else { s("c") }));
+    }
+    grammar(name, rules, vec![pattern("\\s")], vec![], vec![])
+}
